@@ -286,12 +286,22 @@ func TestC20(t *testing.T) {
 	}
 	for i := 0; i < nh; i++ {
 		topo := sim.GenTopology(r, true)
-		// always two pods with nodes in both, so that include lists can span pods
+		// always two pods with nodes in both, so that include lists can span pods; every other topology has three pods
+		// with a PRNG-drawn assignment (runs of nodes whose pod sorts after that of later nodes: the pod-lock keys of a
+		// selection in node-name order are then far from sorted)
 		if len(topo.Pods) == 1 {
 			topo.Pods = append(topo.Pods, "pb")
 		}
 		for j := range topo.Nodes {
 			topo.Nodes[j].Pod = topo.Pods[j%2]
+		}
+		if i%2 == 1 {
+			topo.Pods = []string{"pa", "pb", "pc"}
+			for j := range topo.Nodes {
+				topo.Nodes[j].Pod = topo.Pods[r.Intn(3)]
+			}
+			topo.Nodes[0].Pod, topo.Nodes[len(topo.Nodes)-1].Pod = "pc", "pa"
+			rec.Count("three_pod_topologies", 1)
 		}
 		topo.Pods = append(topo.Pods, "pempty")
 		hc := &histCase{Topology: topo, Mode: "lock-order", Saturate: []bool{r.Intn(2) == 0, r.Intn(2) == 0, true}}
@@ -303,6 +313,14 @@ func TestC20(t *testing.T) {
 		}
 		for j := 0; j < 12+r.Intn(12); j++ {
 			hc.Ops = append(hc.Ops, genC20Op(r, topo))
+			if j%6 == 0 { // a selection of every node (in a PRNG order, one repeated): all the pod locks in one helper
+				all := sim.Op{Kind: "capacity", App: "app", Entry: "web", Pod: topo.Pods[0], Strategy: "DUMMY", Res: sim.Res{CPU: 0.1, Memory: 1 << 20}, Count: 1}
+				for _, k := range r.Perm(len(topo.Nodes)) {
+					all.Includes = append(all.Includes, topo.Nodes[k].Name)
+				}
+				all.Includes = append(all.Includes, all.Includes[0])
+				hc.Ops = append(hc.Ops, all)
+			}
 		}
 		run(hc)
 	}
